@@ -373,7 +373,12 @@ class SimMachine(object):
         if cmd == CMD_VER:
             arg1 = (((chip.x << 8) | chip.y) << 16) | \
                 (((r["cpu"] + 3) % 18) << 8) | r["cpu"]
-            arg2 = (self.version << 16) | self.buffer_size
+            bs = self.buffer_size
+            if r["cpu"] != 0 and getattr(self, "app_buffer_size", None):
+                # an application core may advertise another buffer size; the
+                # machine's (monitor's) figure governs transfers
+                bs = self.app_buffer_size
+            arg2 = (self.version << 16) | bs
             return (OK, [arg1, arg2, self.build_date], self.version_string)
         if cmd in (CMD_READ, CMD_WRITE):
             unit = {0: 1, 1: 2, 2: 4}.get(a3)
